@@ -119,14 +119,15 @@ var properties = map[string][]harnessSpec{
 		{Name: "cmd.VerifC10WriteConvPipe", Marks: end},
 	},
 	"C12": {
-		{Name: "op.VerifC12AllScalesOrder", Marks: end},
-		{Name: "note.VerifC12SemitoneOrder", Marks: end},
-		{Name: "cmd.VerifC12KeyConvOutput", Marks: end},
-		{Name: "cmd.VerifC12KeyListOutput", Marks: end},
-		{Name: "chord.VerifC12BuildOrder", Marks: end},
+		{Name: "op.VerifC12AllScalesOrder", Thorough: map[string]int{"mapOrder.full": 1}, Marks: end},
+		{Name: "note.VerifC12SemitoneOrder", Thorough: map[string]int{"mapOrder.full": 1}, Marks: end},
+		{Name: "cmd.VerifC12KeyConvOutput", Thorough: map[string]int{"mapOrder.full": 1}, Marks: end},
+		{Name: "cmd.VerifC12KeyListOutput", Thorough: map[string]int{"mapOrder.full": 1}, Marks: end},
+		{Name: "chord.VerifC12BuildOrder", Thorough: map[string]int{"mapOrder.full": 1}, Marks: end},
 		{Name: "cmd.VerifC12IOPaths", Marks: []string{"end", "failed", "printed"}},
 		{Name: "cmd.VerifC12LongInput", Quick: map[string]int{"C12.longChords": 520}, Thorough: map[string]int{"C12.longChords": 2000}, Marks: end},
 		{Name: "cmd.VerifC12LongWrite", Quick: map[string]int{"C12.longInstances": 400}, Thorough: map[string]int{"C12.longInstances": 1500}, Marks: end},
+		{Name: "cmd.VerifC12InfoOutputs", Marks: end},
 		{Name: "cmd.VerifC12DebugFlag", Marks: []string{"end", "failed"}},
 		{Name: "astconv.VerifC05Classifier", Quick: map[string]int{"C05.maxChords": 2, "C05.preemptions": 1}, Thorough: map[string]int{"C05.maxChords": 3, "C05.preemptions": 2}, Marks: []string{"end", "classified", "refused"}},
 		{Name: "op.VerifC14Chain", Quick: map[string]int{"C14.maxLen": 2}, Thorough: map[string]int{"C14.maxLen": 3}, Marks: end},
